@@ -82,6 +82,10 @@ def _strategy(draw):
         if a.get("min_take") or a.get("max_take"):
             a["start"] = a["end"] = None
         assets.append(a)
+    if draw(st.integers(0, 5)) == 0:
+        # an asset without price whose cost per unit is a column of the (uncertain) price data
+        assets.append({"type": "simple", "name": "xc", "nodes": [nodes[0]], "price": None, "min_cap": -2.0 / cx.dt0, "max_cap": 2.0 / cx.dt0,
+                       "extra_costs": {"col": draw(st.sampled_from(["p0", "p1"]))}, "wacc": 0.0, "start": None, "end": None})
     # markets priced by the uncertain series
     cap = 16.0 / cx.dt0
     for i, n in enumerate(nodes):
